@@ -29,7 +29,8 @@ Ra == <<97>>   Rb == <<98>>   Re == <<195, 169>>   Rz == <<228, 184, 173>>   Rs 
 Rf == <<239, 191, 189>>   Rg == <<240, 159, 152, 128>>
 \* pattern pool: prefixes / suffixes / infixes of each other, every rune width; "aab" contains two disjoint
 \* occurrences of "a" and ends after both (the interval-merge case of C06)
-Pool == << Ra, Ra \o Rb, Rb, Rb \o Ra, Ra \o Rb \o Ra, Rz, Ra \o Rz, Rz \o Ra, Rs, Ra \o Rs, Re, Rf, Rg \o Ra, Ra \o Rb \o Rz, Rb \o Rz \o Rb, Ra \o Ra \o Rb, Rb \o Ra \o Rb \o Ra >>
+Pool == << Ra, Ra \o Rb, Rb, Rb \o Ra, Ra \o Rb \o Ra, Rz, Ra \o Rz, Rz \o Ra, Rs, Ra \o Rs, Re, Rf, Rg \o Ra, Ra \o Rb \o Rz, Rb \o Rz \o Rb, Ra \o Ra \o Rb, Rb \o Ra \o Rb \o Ra,
+           <<97, 0, 98>> >>      \* (a pattern with U+0000 inside: no rune value is free to serve as a sentinel)
 \* in "bytes" mode three more patterns that are NOT valid UTF-8 (a stray continuation byte inside, alone, and 0xFF)
 BadPats == << <<97, 128, 98>>, <<128>>, <<255, 97>> >>
 FullPool == IF Mode = "bytes" THEN Pool \o BadPats ELSE Pool
